@@ -157,6 +157,16 @@ def run(ctx):
         # ... and only on the fork path, before the rollback and the new last state
         ctx.ob('C02.r7', CP.name, 'the rewrite precedes rollback_to_block on every path',
                all(any(P.cfg(CP).reachable_from([bid]).__contains__(rb) for rb, _ in P.call_sites(CP, 'Storage::rollback_to_block')) for bid, _ in rewrites))
+    # r8 (F77): a blocks / transactions proof is requested against the stored tip and stays outstanding across a fork: a (valid)
+    # response for the replaced tip must not be stored over the records of the proven chain
+    for hname, sink in (('SendBlocksProofProcess::execute_internally', 'Storage::add_fetched_header'), ('SendTransactionsProofProcess::execute_internally', 'Storage::add_fetched_tx')):
+        Hh = ctx.body(hname)
+        rep = P.call_sites(Hh, 'LightClientProtocol::is_replaced_header')
+        ctx.ob('C02.r8', hname, 'a proof response whose last header was replaced in the stored chain is dropped before anything is stored', bool(rep),
+               failing_history=None if rep else 'GetTransactionsProof(last = A24) outstanding; fork to B; the held-back valid response stores tx x as (23, u32::MAX) over the indexed record '
+               '(24, real index): the cell x spends later stays live; get_transaction names the abandoned block')
+        if rep:
+            ctx.guard('C02.r8', Hh, 'LightClientProtocol::is_replaced_header', 'false', ctx.sites(Hh, sink, 1), unconditional=True)
     # reviewed reference of the checker functions' decision structure (engine/census.py)
     from rules import census_fns
     census_fns.run(ctx, 'C02')
